@@ -367,6 +367,12 @@ def collect(rep, prop, tier, seed, exe, replay=None):
         progs, cases, hist = gen(rng, tier)
     work = os.path.join(CACHE, "work", "%s-%s" % (prop, tier))
     records, build_fail = run_sharded(progs, cases, configs, work, exe)
+    incoq_n = 0
+    if tier == "thorough" and not replay and not is_scaled():
+        import incoq
+        smp = [r for r in records if r.get("model_line")]
+        smp = random.Random(seed + 98).sample(smp, min(50, len(smp)))
+        incoq_n = incoq.cross_check(rep, prop, "S", [(r["toks"], r["model_line"]) for r in smp], os.path.join(work, "incoq"))
     for (sh_, cfg, blog) in {c: (s_, c, l) for (s_, c, l) in reversed(build_fail)}.values():
         rep.violation("submdspan driver shard %s no longer builds in configuration %s" % (sh_, cfg),
                       {"obligation": "corr:sub/build/%s/%s" % (sh_, cfg), "log": blog[-3000:], "signature": "build:sub:%s" % cfg}, True)
@@ -397,7 +403,7 @@ def collect(rep, prop, tier, seed, exe, replay=None):
         if len(seen) >= 6:
             break
     return {
-        "evaluations": evaluations, "distinct_nontrivial": len(nontriv),
+        "evaluations": evaluations, "distinct_nontrivial": len(nontriv), "evaluated_inside_coq_too": incoq_n,
         "rule": "programs = source mdspan (layout_left/right/stride x 8 index types x static/dynamic pattern, rank 1..%d, small shapes with zeros and shapes near imax) x chain of "
                 "1..%d slicings whose specifier kinds (index, integral_constant index, pair, tuple, pair of integral_constants, full_extent, strided_slice with each of "
                 "offset/extent/stride run-time or constant) are part of the generated C++; values valid for the shape incl. empty slices that start at the end of an extent, "
